@@ -12,6 +12,7 @@ HEADER = ('From Coq Require Import List ZArith.\n'
 CASE_TYPE = 'C13.case'
 TAGS = {'translate': 0, 'rotate': 1, 'scale': 2, 'matrix': 3, 'lookat': 4}
 LIMIT = 2 ** 21   # products stay exactly representable in float32
+ROT_LIMIT = 2 ** 13
 
 
 # ------------------------------------------------------------------ integer-exact generators
@@ -29,7 +30,7 @@ def gen_int_transform(rng):
     if k == 'scale':
         return [k] + [rng.choice([-2, -1, 1, 2, 3]) for _ in range(3)]
     if k == 'rotate':
-        return [k] + unit_axis(rng) + [90 * rng.randint(-8, 8)]
+        return [k] + unit_axis(rng) + [90 * rng.randint(-4, 4)]
     if k == 'matrix':
         r = rng.random()
         if r < 0.5:      # affine with small entries
@@ -100,13 +101,16 @@ def gen_case(rng, gen_t, exact):
 
 
 def within_limit(case):
+    """integer products stay exact in float32 (< 2^21); a rotation by a multiple of 90 degrees leaves a
+    residue of up to 4e-7 per factor (float32 angle, float32 storage), which the other factors amplify:
+    with rotations present the bound is 2^13, so the accumulated error stays below the worker's 0.05"""
     b = 1
-    for t in case['init']:
+    rot = False
+    ts = list(case['init']) + [e[-1] for e in case['edits'] if e[0] in ('append', 'insert', 'replace')]
+    for t in ts:
         b *= norm_bound(t)
-    for e in case['edits']:
-        if e[0] in ('append', 'insert', 'replace'):
-            b *= norm_bound(e[-1])
-    return b < LIMIT
+        rot = rot or t[0] == 'rotate'
+    return b < (ROT_LIMIT if rot else LIMIT)
 
 
 # ------------------------------------------------------------------ float generators (direct oracle only)
